@@ -70,6 +70,7 @@ type InvBehav struct {
 	Hdr        map[string]string
 	ExtraPolls int // polls again this many times before answering (must get the same invocation)
 	Exit       int
+	Race       string // "response" / "error": the same answer is also submitted on a second connection at the same moment
 }
 
 // InvSpec is one planned invocation.
@@ -297,6 +298,9 @@ func (e *Engine) answerOp(s *actorState) (Op, bool) {
 						if body == nil {
 							body = []byte{}
 						}
+						if pb.Race != "" {
+							return Op{Kind: "response-race", Arg: pb.Race, Body: body, Hdr: pb.Hdr}, true
+						}
 						return Op{Kind: "response", Body: body, Hdr: pb.Hdr}, true
 					}
 				}
@@ -421,6 +425,19 @@ func (e *Engine) doOp(s *actorState, op Op, scripted bool) {
 		exp := id != "" && id == a.CurReqID
 		c := a.Response(id, e.respBody(s, op), op.Hdr)
 		c.ExpectAccept, c.Judged = exp, true
+	case "response-race":
+		// the answer on the main connection and a duplicate (another /response, or an /error) on a second connection,
+		// both for the in-flight id, issued in the same step: exactly one of them may be accepted
+		id := a.CurReqID
+		body := e.respBody(s, op)
+		var side *Call
+		if op.Arg == "error" {
+			side = a.SideStart("rt-error-dup", "POST", rtBase+"/invocation/"+id+"/error", map[string]string{"Lambda-Runtime-Function-Error-Type": "Function.Race"}, body)
+		} else {
+			side = a.SideStart("rt-response-dup", "POST", rtBase+"/invocation/"+id+"/response", op.Hdr, body)
+		}
+		e.r.Fault("concurrent-duplicate-submission")
+		a.ResponseWith(side, id, body, op.Hdr)
 	case "response-die", "error-die":
 		id := e.resolveID(a, op.Arg)
 		if op.Kind == "error-die" {
